@@ -41,6 +41,8 @@ type PtrSliceElem struct {
 	Slice Term
 	Idx   Term
 	ElemT types.Type
+	Field string     // non-empty: pointer to that field of the (struct) element
+	FieldT types.Type
 }
 type VarArgSlice struct{ Elems []Val }
 type MapIter struct {
@@ -411,6 +413,7 @@ type frame struct {
 	defers  []*deferred
 	depth   map[*ssa.BasicBlock]int
 	old     *State // state at function entry (for top frame)
+	curState *State // state of the block being executed
 	recover bool
 }
 
@@ -732,6 +735,7 @@ func (fr *frame) setEdge(from, to *ssa.BasicBlock, cond string) {
 
 func (fr *frame) execBlock(b *ssa.BasicBlock, st *State) {
 	fc := fr.fc
+	fr.curState = st
 	reach := fr.reach[b]
 	for _, in := range b.Instrs {
 		switch i := in.(type) {
@@ -855,6 +859,20 @@ func (fr *frame) term(v ssa.Value) Term {
 	case *PtrField:
 		fr.fc.unsupported("interior pointer &x.%s used as a value in %s", t.Name, fr.fn.Name())
 		return fr.fc.fresh("interior", SInt)
+	case *PtrSliceElem:
+		// &s[i] used as a value: materialised as a pointer to a copy of the element. Sound as long as
+		// nothing is written through such pointers (stores through them are rejected as unsupported).
+		fc := fr.fc
+		if t.ElemT == nil || fr.curState == nil || t.Field != "" {
+			fc.unsupported("pointer to a slice element used as a value in %s", fr.fn.Name())
+			return fc.fresh("interior", SInt)
+		}
+		r := fc.newRef(fr.curState, "elemcopy")
+		ev := fc.slcAt(t.Slice, t.Idx.S)
+		fr.storeRefNoFrameAny(fr.curState, r, t.ElemT, ev)
+		fc.assumes = append(fc.assumes, "&slice[i] used as a value is modelled as a pointer to a copy of the element (no store goes through such a pointer in the verified code)")
+		fr.vals[v] = r
+		return r
 	case nil:
 		fr.fc.unsupported("value %s (%T) has no symbolic value in %s", v.Name(), v, fr.fn.Name())
 		return fr.fc.fresh("undef", fr.fc.e.sortOf(v.Type()))
